@@ -44,6 +44,8 @@ CHECKS = {
          "TLA+ lexer/template acceptor ShellWords.tla (design-checked) validating real completion outputs; bash sandbox with canaries", "6 (C15)"),
  "C17": ("translation_validation", "Derive.tla states the documented derive rules as a function from a type definition to the definition of the hand-written equivalent (TLC checks it is total and well-formed on the family and prints the result); a generated crate contains the #[derive(Bpaf)] types; for every type TLC enumerates all lines up to the bound for the derived definition (CmdLine/GroupLine) and the derived parser, the hand-written parser built from that definition and the specification's outcome must agree on value, failure class and help/error text.",
          "TLA+ derive rules (Derive.tla) evaluated by TLC; differential run derived vs hand-written vs TLA+ outcome on TLC-enumerated lines", "6 (C17)"),
+ "C04": ("exploration", "History.tla: one OptionParser object, calls identified by operation + arguments, Answer enabled only for an allowed result class and, when the call was made before, the identical result (design-checked on a tiny universe); sessions of parse/help/completion (revisions 0/1/7/8/9, with and without a name)/markdown/html/manpage calls over generic definitions (any, pure, choices, adjacent groups and commands, hidden items, control characters) and byte-grammar argument vectors run in a watched child process (hang and exit observable), every call repeated later; TLC validates every recorded call against History.tla.",
+         "TLA+ history protocol (History.tla, design-checked) validating recorded sessions; child process under a watchdog", "6 (C04)"),
 }
 NOTE = "Bounded: exhaustive within the stated constants, sampled beyond; trusted: TLC, the JSON reader, the dynamic builder (public bpaf API only)."
 
@@ -56,7 +58,7 @@ def main():
                    "baseline_off_cmd": "cd /repo && cargo nextest run --workspace --no-fail-fast --test-threads 8 --offline",
                    "source_commits": hook_commits, "add_only": True},
          "engines": [
-             {"name": "cmdline", "path": "tla/CmdLine.tla", "serves_properties": sorted(set(CHECKS) - {"C07", "C19", "C11", "C12", "C16", "C13", "C15", "C17"}),
+             {"name": "cmdline", "path": "tla/CmdLine.tla", "serves_properties": sorted(set(CHECKS) - {"C07", "C19", "C11", "C12", "C16", "C13", "C15", "C17", "C04"}),
               "kind_free_text": "TLA+ left-to-right acceptor with denotation; TLC design/replay/trace configurations; Rust harness building real bpaf parsers from the same JSON definitions"},
              {"name": "docs", "path": "tla/HelpModel.tla", "serves_properties": ["C12", "C16"],
               "kind_free_text": "Listing model of help/documentation (HelpModel.tla) and markup acceptors (Markup.tla); the harness renders and lexes, TLC judges"},
@@ -66,6 +68,8 @@ def main():
               "kind_free_text": "shell word lexer and directive templates (ShellWords.tla), quoting design model (ShellDesign.tla), trace judge (ShellTrace.tla)"},
              {"name": "derive", "path": "tla/Derive.tla", "serves_properties": ["C17"],
               "kind_free_text": "derive rules as a TLA+ function; generated crate derive_cases with the derived types; differential runner"},
+             {"name": "history", "path": "tla/History.tla", "serves_properties": ["C04"],
+              "kind_free_text": "call-history protocol of one OptionParser (History.tla), session driver with watchdog, HistoryTrace"},
              {"name": "process", "path": "tla/Process.tla", "serves_properties": ["C11"],
               "kind_free_text": "TLA+ protocol of a process built around OptionParser::run(); ProcessTrace validates recorded runs of harness-app"},
              {"name": "groupline", "path": "tla/GroupLine.tla", "serves_properties": ["C07", "C19"],
@@ -80,11 +84,11 @@ def main():
                                 "thorough_cmd": f"bin/check {pid} --tier thorough",
                                 "evidence_file": f"/verif/evidence/{pid}.json",
                                 "replay_cmd_template": f"bin/check {pid} --replay {{path}}",
-                                "engine": "groupline" if pid in ("C07", "C19") else "process" if pid == "C11" else "docs" if pid in ("C12", "C16") else "wrap" if pid == "C13" else "shell" if pid == "C15" else "derive" if pid == "C17" else "cmdline",
+                                "engine": "groupline" if pid in ("C07", "C19") else "process" if pid == "C11" else "docs" if pid in ("C12", "C16") else "wrap" if pid == "C13" else "shell" if pid == "C15" else "derive" if pid == "C17" else "history" if pid == "C04" else "cmdline",
                                 "level_claimed": {"category": lvl, "text": text, "design_ref": f"DESIGN.md section {ref}"},
                                 "level_note": NOTE, "technique": tech})
         else:
-            m["not_applicable"].append({"property_id": pid, "reason": "check under construction in this round (specification planned in DESIGN.md section 6); not yet claimed"})
+            m["not_applicable"].append({"property_id": pid, "reason": "no check built"})
     json.dump(m, open(os.path.join(V, "MANIFEST.json"), "w"), indent=1)
     print("checks:", [c["property_id"] for c in m["checks"]])
 
